@@ -11,6 +11,7 @@ CPython's parse of that text, and the object `exec` binds in a fresh namespace.
 """
 import ast
 import dataclasses
+import datetime
 import enum
 import importlib
 import json
@@ -89,6 +90,15 @@ def to_spec(o):
         return {"t": "xml", "k": "datetime",
                 "args": [str(x) for x in (o.year, o.month, o.day, o.hour, o.minute, o.second, o.fractional_second)],
                 "off": None if o.offset is None else str(o.offset)}
+    if t is datetime.date:
+        return {"t": "std", "k": "date", "args": [str(o.year), str(o.month), str(o.day)]}
+    if t is datetime.time or t is datetime.datetime:
+        if o.tzinfo is not None or o.fold:
+            raise Undescribable("aware / folded datetime")
+        if t is datetime.time:
+            return {"t": "std", "k": "time", "args": [str(x) for x in (o.hour, o.minute, o.second, o.microsecond)]}
+        return {"t": "std", "k": "datetime",
+                "args": [str(x) for x in (o.year, o.month, o.day, o.hour, o.minute, o.second, o.microsecond)]}
     if t is XmlDuration:
         return {"t": "dur", "v": cps(o.data)}
     if t is XmlPeriod:
@@ -175,6 +185,9 @@ def build(r):
     if t == "xml":
         args = [int(x) for x in r["args"]] + ([] if r["off"] is None else [int(r["off"])])
         return {"date": XmlDate, "time": XmlTime, "datetime": XmlDateTime}[r["k"]](*args)
+    if t == "std":
+        return {"date": datetime.date, "time": datetime.time, "datetime": datetime.datetime}[r["k"]](
+            *[int(x) for x in r["args"]])
     if t == "dur":
         return XmlDuration(sfrom(r["v"]))
     if t == "period":
